@@ -31,7 +31,7 @@ OPS = [
     (r"\.is_some\(\)", ".is_none()"), (r"\.is_none\(\)", ".is_some()"), (r"\.is_empty\(\)", ".len() > 0"),
     (r"\.any\(", ".all("), (r"\.all\(", ".any("),
     (r"\.min\(", ".max("), (r"\.max\(", ".min("),
-    (r"\bSome\(([a-z_]+)\)", "None"), (r"!\s*(?=[a-z_(])", ""),
+    (r"(?<!let )(?<!\| )\bSome\(([a-z_]+)\)(?! =>)(?! \|)", "None"), (r"(?<![A-Za-z0-9_])!\s*(?=[a-z_(])", ""),
     (r"\.rev\(\)", ""), (r"\.skip\(1\)", ""), (r"\bbreak;", "continue;"), (r"\bcontinue;", "break;"),
 ]
 
